@@ -126,6 +126,23 @@ pub fn c02(ctx: &Ctx, rep: &mut Report) {
             }
         }
     }
+    // construct in wrapper in context (a sample in the quick tier)
+    let third = if ctx.quick() { 6 } else { 1 };
+    for ci in 0..gen::MATRIX_CONSTRUCTS.len() {
+        for wi in 0..gen::MATRIX_WRAPPERS.len() {
+            for xi in 0..gen::MATRIX_CONTEXTS.len() {
+                k += 1;
+                if !ctx.mine(k) || (k.wrapping_mul(0x9E37_79B9_7F4A_7C15).wrapping_add(ctx.seed) >> 24) % third != 0 {
+                    continue;
+                }
+                let (name, src) = gen::matrix3_program(ci, wi, xi);
+                match real::parse(&src) {
+                    Ok(ast) => c02_one(rep, &format!("matrix3:{}", name), &src, &ast),
+                    Err(e) => rep.inconsistency(format!("matrix program {} does not parse: {}", name, e)),
+                }
+            }
+        }
+    }
     for (name, src) in stress_sources() {
         k += 1;
         if !ctx.mine(k) {
